@@ -99,5 +99,10 @@ func (b *Stack[T]) WaitSizeIsAbove(threshold int) {
 }
 
 func (b *Stack[T]) SignalShutdown() {
+	// the lock makes sure that a waiter that has evaluated its wait condition is already parked in Wait
+	// (otherwise the broadcast could be lost and the waiter would block forever)
+	b.mutex.Lock()
+	defer b.mutex.Unlock()
+
 	b.elementAdded.Broadcast()
 }
